@@ -15,7 +15,7 @@ CHECKS = {
     'C02': dict(cat='other', design='7/C02',
                 text='instantiate_args_list / instantiate_return_type proved to keep argument names, default text, order and the pair/single shape (over an assumed type-level contract of instantiate_type, which is out of reach: deep copy, str.replace). Bounded: every type of every instantiated member on the scope (random + sanitised + curated scenarios with look-alike identifiers, This::X, multi-instantiation templates, every shape of the structured scope) is compared, through the emitted bindings, with capture-free reference substitution.',
                 note=BOUNDED_NOTE, technique='contract-based deductive verification (Python-ast -> SMT VCs, z3+cvc5) of the functions listed in the evidence; bounded stand-in (real output read back / reference oracle on a stated scope) for the rest'),
-    'C03': dict(cat='other', design='7/C03', text='Leaf emitters (constructors, dunders, properties, operators, variables, enums, class-scoped enums, forward-declaration classes, module-variable / qualification helpers) proved equal to their denotations for all inputs; _wrap_method / wrap_methods / wrap_functions / wrap_instantiated_class under run-time contracts (not proved); presence, names, submodule placement, top-namespace and ignore filters decided on a bounded scope by reading real output back and comparing with the bindings declared by the reference semantics.',
+    'C03': dict(cat='other', design='7/C03', text='Leaf emitters (constructors, dunders, properties, operators, variables, enums, class-scoped enums, forward-declaration classes, module-variable / qualification helpers) proved equal to their denotations for all inputs; _wrap_method / wrap_methods / wrap_instantiated_class proved as conditional contracts (no method named print, serialization and documentation off) and monitored at run time otherwise; presence, names, submodule placement, top-namespace and ignore filters decided on a bounded scope by reading real output back and comparing with the bindings declared by the reference semantics.',
                 note=BOUNDED_NOTE, technique=PY_TECH),
     'C04': dict(cat='other', design='7/C04', text='Keyword-argument lists with defaults, lambda parameter lists, callee spellings with explicit template arguments, void detection and serialization '
                      'bindings proved equal to their denotations for all inputs; forwarding of every emitted binding (types, names, defaults, order, static/instance, return) '
